@@ -333,6 +333,25 @@ def run_case(case, seg, viol, unsound, stats, sample):
     else:
         table = SL.planted_table(gene, planted, case["depth"], rng, noise=0.5, extra_noise=rng.randint(2, 6))
     profile = Profile("test", gap=case["gap"])
+    if mode in ("noisy", "wild") and rng.random() < 0.5:
+        # a site with three kinds of observation: an uncatalogued base listed FIRST that fails the read filter,
+        # the reference, and a catalogued core substitution a hair below its limit (the limit is taken against
+        # the site's whole depth, whatever the filter has already thrown away)
+        cns_ = CNSolution(gene, 0, cn)
+        cand = sorted((pos, op) for (pos, op) in gene.mutations
+                      if gene.is_functional((pos, op)) and ">" in op and len(op) == 3 and cns_.position_cn(pos) >= 1)
+        if cand:
+            pos, op = rng.choice(cand)
+            k_ = cns_.position_cn(pos)
+            T_ = rng.choice([100, 200])
+            limit = T_ * profile.threshold / (k_ + 0.5)
+            var = int(limit) - 1 if float(int(limit)) == limit else int(limit)
+            need = T_ - var * (k_ + 0.5) / profile.threshold  # depth that has to go for the variant to pass
+            n_ = int(need) + 2
+            other = next(b for b in "ACGT" if b != op[0] and b != op[2])
+            if 0 < var and 2 <= n_ < limit and n_ + var < T_:
+                table[pos] = {f"{op[0]}>{other}": n_, "_": T_ - n_ - var, op: var}
+                stats["noise_first_sites"] = stats.get("noise_first_sites", 0) + 1
     stats["cases"] += 1
     detail0 = {"gene": gname, "structure": cn, "planted": planted, "mode": mode, "gap": case["gap"]}
     # evidence as the alignment reader delivers it: catalogued indels counted by the realigner on its own
@@ -347,6 +366,24 @@ def run_case(case, seg, viol, unsound, stats, sample):
         cns = CNSolution(gene, 0, cn)
         sols = MJ.estimate_major(gene, cov, cns, "cbc")
         alleles, fcov = MJ._filter_alleles(gene, cov, cns)
+        # the read filter restated (substitutions and reference observations of the pile-up only): an observation
+        # is kept iff it has min_coverage reads and threshold / cn_max of the site's depth and, for a variant,
+        # threshold / (copies at the site + 0.5) of it - the site's depth being the depth of the whole site
+        for pos_, ops_ in table.items():
+            tot_ = sum(c_ for o_, c_ in ops_.items() if not o_.startswith("ins"))
+            if any(o_.startswith(("ins", "del")) for o_ in ops_) or (indels and any(p2 == int(pos_) for p2, _ in indels)):
+                continue
+            for o_, c_ in ops_.items():
+                lim = max(profile.min_coverage, tot_ * profile.threshold / profile.cn_max)
+                if o_ != "_":
+                    lim = max(lim, tot_ * profile.threshold / (cns.position_cn(int(pos_)) + 0.5))
+                if abs(c_ - lim) < 1e-6 or c_ == 0:
+                    continue
+                kept = bool(fcov._coverage.get(int(pos_), {}).get(o_))
+                if kept != (c_ >= lim) and not any(v_["clause"].startswith("read filter") for v_ in viol):
+                    viol.append({"clause": "read filter kept / dropped an observation contrary to the documented thresholds",
+                                 "detail": dict(detail0, pos=int(pos_), op=o_, reads=c_, site_depth=tot_, limit=lim,
+                                                kept=kept, site=dict(ops_))})
         return sols, Evaluator(gene, fcov, cns, alleles, profile), cns
 
     def per_solution(sols, ev, mode_name):
